@@ -444,30 +444,53 @@ PROPS["C13"] = dict(
 )
 
 PROPS["C19"] = dict(
-    lean_targets=["SJ.Props.C19", "SJ.Props.C01Iff", "SJ.Audit.C19"],
+    lean_targets=["SJ.Props.C19", "SJ.Props.C19Nested", "SJ.Props.C01Iff", "SJ.Audit.C19"],
     configs=dict(quick=["rv"], thorough=["rv", "rvpofr"]),
-    gen_keys=["error.", "de."],
+    gen_keys=["error.", "de.", "ser."],
     rule=PARSE_RULE + " C19 adds, with raw_value enabled: every token sequence of length <= 2 (thorough 3), generated documents and "
          "their mutations captured at top level as Box<RawValue> and &RawValue from str/slice and Box<RawValue> from a reader "
          "(five captures compared with each other, with the model and with the value's source text; a borrowed capture must be "
          "a subslice at the right offset); arrays, objects and structs whose elements' exact source spans are known to the "
          "generator, with every whitespace placement around them, captured as Vec<&RawValue>/Vec<Box<RawValue>>/BTreeMap/struct "
          "fields (incl. an unknown field skipped in between); RawValue::from_string on the same inputs with to_string, pretty, "
-         "nested and to_value of the result.",
-    trusted_base=MACHINE_TB,
+         "nested and to_value of the result. Op rawnest: Vec<Box<RawValue>> (and Vec<&RawValue>, which must be subslices) and the "
+         "entries of a map of Box<RawValue> in source order, from str, slice and a chunked reader, on a fixed corpus, every token "
+         "sequence of length <= 2 (thorough 3) bare and wrapped in [..], [1,..], {\"k\":..}, {..:1}, generated arrays/objects with "
+         "whitespace variety, 3 mutations each and every prefix of a quarter of them; compared with the nested-capture model "
+         "(Model.RawNested) and with element spans computed by the independent scanner Spec.Pos. Op rawser: serializer programs "
+         "with RawValues at arbitrary positions (random RVal programs of depth <= 3 over every container constructor, RawValue "
+         "keys included, leaves = C03 programs) through a recording writer, compact and pretty with indents two spaces / tab / "
+         "empty; compared buffer by buffer with Model.SerRaw.",
+    trusted_base=MACHINE_TB + ["serializer model Model.Ser (C03) for op rawser; typed sequence/map machinery of Model.Typed for op rawnest"],
     assumptions=["RawValue's transmutes between str and RawValue (layout) are outside the model",
-                 "nested captures (array element, object value, struct field) are checked against generator-known spans, not modelled"],
-    partial=["c19_verbatim (serialising writes the text unchanged) and nested capture positions are by correspondence only"],
-    technique="Lean 4 theorems on the top-level capture model (runPrefix = feed + finish: the captured span is accepted on its own as one "
-              "value; surroundings are whitespace) + span-exact differential run with generator-known element spans",
+                 "struct fields captured raw (derive-generated visitor) are checked against generator-known spans (op rawelems), not modelled",
+                 "to_value(RawValue) = from_str(text) is checked per case (op rawstr), not modelled"],
+    partial=["object values captured raw (BTreeMap<String, Box<RawValue>>): modelled (Model.RawNested.rawMapTop, op rawnest obj, "
+             "0 disagreements) but the span theorems (c19_nested_capture, _grammar, _canon) are proved for array elements and the top "
+             "level only",
+             "c19_nested_capture / c19_top_complete on byte sources take the UTF-8 validity of the element texts as hypothesis (it is "
+             "what from_utf8 checks); that it follows from the UTF-8 validity of the whole input is proved for the three-source "
+             "statement only (C09 c09_raw_sources)"],
+    technique="Lean 4 theorems: top-level and array-element capture = exactly one grammar value (soundness of the machine on the consumed "
+              "bytes + completeness to exclude a shorter/longer reading; loop invariant over SeqAccess), iff with the concatenation "
+              "structure of the array text; one-hole contexts over the RawValue serializer route; span-exact differential runs",
     level_text="Machine-checked: c19_skip_language (the scanner of skipped/raw content accepts a byte string iff it is exactly one RFC "
-               "8259 JSON text, with no depth, surrogate, UTF-8 or range condition), runPrefix_feed and c19_captured_reparses (whatever is captured at top level, taken on its own, is "
-               "accepted by the scanner as exactly one value, from the first non-whitespace byte), skipWs_prefix (only whitespace "
-               "precedes it; rawTop rejects anything but whitespace after it). The crate's captures at top level and at every "
-               "nested position are compared byte for byte with the source spans; from_string/to_string/to_value round trips are "
-               "checked on every input.",
-    level_note="Trusted: Lean kernel + 3 standard axioms; extract.py; harness/driver; machine model (ignored target). The scanner-vs-"
-               "grammar equivalence is being proved separately (C01/C02 branches).",
+               "8259 JSON text, with no depth, surrogate, UTF-8 or range condition), runPrefix_feed and c19_captured_reparses; "
+               "c19_top_span / c19_top_complete (from_*::<Box<RawValue>> captures bs[p..e] iff the input is whitespace, one grammar value "
+               "(Derives, first to last byte, valid UTF-8 on byte sources), whitespace - and then exactly that value); c19_nested_capture "
+               "(from_*::<Vec<Box<RawValue>>> succeeds with captures cs iff the input is ws [ inner ] ws with inner = ws or ws c1 (ws , ws "
+               "ci)* ws and every ci one grammar value: each element is captured from its first to its last byte, nothing else is "
+               "accepted), c19_nested_grammar / c19_nested_complete (these decompositions are the array derivations JsonText bs (arr ts) "
+               "with Derives ci ti), c19_nested_canon (if the same bytes parse into a Value it is an array of as many elements and the "
+               "i-th capture parses on its own to the i-th element); c19_verbatim (a RawValue in the hole of any serializer context - seq, "
+               "tuple, variants, map value, struct field, Some/newtype, nested to any depth - is handed to the writer as one buffer "
+               "holding exactly its text, by the compact and every pretty formatter, and nothing else that is written depends on the "
+               "text), c19_verbatim_top, c19_verbatim_bytes, c19_serR_is_ser (the extended serializer is the C03 serializer with the "
+               "RawValue replaced by a literal leaf), c19_raw_key_rejected. The crate's captures at top level and at every nested "
+               "position are compared byte for byte with the source spans and with the models; from_string/to_string/to_value round "
+               "trips are checked on every input.",
+    level_note="Trusted: Lean kernel + 3 standard axioms; extract.py; harness/driver; machine model (ignored target), the typed model's "
+               "sequence/map machinery, Model.RawNested and Model.SerRaw (validated by ops rawnest / rawser, 0 disagreements).",
 )
 
 PROPS["C01"] = dict(
